@@ -224,3 +224,76 @@ func vh_C05_parse() {
 	}
 	vReach("parse")
 }
+
+// vC05RunAll evaluates every form (a failure does not stop the sequence: the
+// later forms are the "arbitrary further evaluations" of the property) in
+// the real interpreter and in the reference evaluator under one failure
+// plan, and compares, form by form, error-ness and value, and at the end the
+// effect trace; after every form the four stacks are at rest.
+func vC05RunAll(env *Zlisp, forms []Sexp, label string) {
+	plan := vC05Plan(4)
+	vFailPlan = plan
+	vFailPanic = vChoice("failkind", 2) == 1
+	ref := vrNewEval()
+	ref.failPlan = plan
+	failures := 0
+	for _, f := range forms {
+		want, wantOK := ref.run([]Sexp{f})
+		res, err, panicked := vEval(env, f)
+		vAssert(!panicked, label+"-no-panic-escapes")
+		if panicked {
+			return
+		}
+		vAssert((err == nil) == wantOK, label+"-same-errorness-as-reference")
+		if (err == nil) != wantOK {
+			return
+		}
+		if err == nil {
+			vAssert(vrMatch(res, want), label+"-same-value-as-reference")
+		} else {
+			failures++
+		}
+		vC04AtRest(env, label)
+	}
+	vAssert(len(vTraceLog) == len(ref.trace), label+"-trace-length")
+	if len(vTraceLog) == len(ref.trace) {
+		for i := range ref.trace {
+			vAssert(vTraceLog[i] == ref.trace[i], label+"-trace-order")
+		}
+	}
+	if failures > 0 {
+		vReach(label + ":failed")
+	} else {
+		vReach(label + ":no-failure")
+	}
+}
+
+// vh_C05_lazy: failures inside lazy forcing, eval-style builtins and
+// callbacks (apply, map), followed by further evaluations that force the
+// same lazy argument again, call the same closures again, and read the
+// definitions made so far.
+var vC05LazyPrograms = []string{
+	// a lazy argument that outlives the call: forced now, later and again
+	`(defn promise [#x] (fn [] (force #x))) (def pr (promise (t 9001))) (pr) (pr) (+ (pr) 1)`,
+	`(def keep nil) (defn k [#p] (set keep (fn [] (+ (force #p) (t 9002)))) 0) (k (t 9001)) (keep) (keep) (keep)`,
+	// forced inside the call, once and twice, under a let of the caller
+	`(defn f [#p q] (+ (force #p) q)) (def r1 (f (t 9001) (t 9002))) (let [z 1] (f (t z) (t 9001))) (t 5)`,
+	`(defn f [#p] (+ (force #p) (force #p))) (f (t 9001)) (f (t 9002)) (t 5)`,
+	`(defn f [#p #r] (+ (force #r) (force #p))) (f (t 9001) (t 9002)) (f (t 1) (t 2))`,
+	// the forcing happens inside a callback
+	`(defn f [#p] (map (fn [u] (+ u (force #p))) [(t 1) (t 2)])) (f (t 9001)) (f (t 9002))`,
+	`(defn f [#p] (apply (fn [u v] (+ u (+ v (force #p)))) [(t 1) (t 2)])) (f (t 9001)) (t 5)`,
+	// callbacks and nested calls without laziness
+	`(def done []) (defn w [u] (set done (append done (t u))) u) (map w [9001 9002 3]) (len done) (w 4) (len done)`,
+	`(defn g [u] (+ (t u) 1)) (defn h [u] (let [y (g u)] (* y (g y)))) (h 9001) (h 1) (t 5)`,
+	`(defn f [#p q] (cond (< q 0) (force #p) q)) (f (t 9001) (t 9002)) (f (t 1) (t (- 0 1))) (t 5)`,
+}
+
+func vh_C05_lazy() {
+	vFormatOpaque(true)
+	env := vEvalEnv(0)
+	k := vChoice("program", len(vC05LazyPrograms))
+	forms := vT(env, vC05LazyPrograms[k], vSmallInt("h1"), vSmallInt("h2"))
+	vC05RunAll(env, forms, "lazy")
+	vReachIdx("lazy", k, len(vC05LazyPrograms))
+}
